@@ -24,6 +24,11 @@ structure Pos where
 
 def at' (b : RBoard) (s : Sq) : Option Piece := b[s.val]
 
+/-- the rules' view of an engine position: the mailbox and the scalar fields -/
+def ofGame (g : Game) : Pos :=
+  { board := g.board.squares, player := g.player, rights := g.rights, ep := g.ep,
+    halfmove := g.halfmove, plies := g.plies }
+
 def offset (s : Sq) (df dr : Int) : Option Sq := Sq.mk? (s.file + df) (s.rank + dr)
 
 /-- squares from `s` in direction `d`, nearest first, `s` excluded -/
@@ -56,6 +61,12 @@ def isPiece (b : RBoard) (s : Option Sq) (k : PieceKind) (p : Player) : Bool :=
   | none => false
   | some s => at' b s == some ⟨k, p⟩
 
+/-- along direction `d` from `t`, the first man met is a `by'` slider of kind `k1` or a queen -/
+def sliderHit (b : RBoard) (by' : Player) (t : Sq) (k1 : PieceKind) (d : Dir) : Bool :=
+  match firstOccupied b (ray d t) with
+  | some (_, pc) => pc.player == by' && (pc.kind == k1 || pc.kind == .queen)
+  | none => false
+
 /-- is square `t` attacked by a man of colour `by`? -/
 def attacked (b : RBoard) (by' : Player) (t : Sq) : Bool :=
   -- pawns: a pawn of `by'` stands one rank *behind* t (from its own point of view) on an adjacent file
@@ -63,12 +74,8 @@ def attacked (b : RBoard) (by' : Player) (t : Sq) : Bool :=
   isPiece b (offset t 1 (-(fwd by'))) .pawn by' ||
   knightDeltas.any (fun d => isPiece b (offset t d.1 d.2) .knight by') ||
   kingDeltas.any (fun d => isPiece b (offset t d.1 d.2) .king by') ||
-  Dir.diagonal.any (fun d => match firstOccupied b (ray d t) with
-    | some (_, pc) => pc.player == by' && (pc.kind == .bishop || pc.kind == .queen)
-    | none => false) ||
-  Dir.cardinal.any (fun d => match firstOccupied b (ray d t) with
-    | some (_, pc) => pc.player == by' && (pc.kind == .rook || pc.kind == .queen)
-    | none => false)
+  Dir.diagonal.any (sliderHit b by' t .bishop) ||
+  Dir.cardinal.any (sliderHit b by' t .rook)
 
 def kingSq (b : RBoard) (p : Player) : Option Sq :=
   (List.finRange 64).find? (fun s => at' b s == some ⟨.king, p⟩)
